@@ -460,16 +460,23 @@ class ConstructInterface(Interface):
 
     def sub_actualsize(self, eng, sc, stream, ctx, path, st):
         """default _actualsize = _sizeof; overrides (Prefixed, PrefixedArray) read the stream: an int >= 0, or
-        SizeofError (the caller falls back to parsing), or another ConstructError"""
+        SizeofError (the caller falls back to parsing), or another ConstructError.  Like parsing it is a function of
+        (construct, buffer, position, context): interface functions A_ok / A_val / A_exc."""
         o = st.get(stream)
         H, D = self.H(st)
         c = self.ctx_addr(eng, ctx, st)
         out = []
-        ok = fresh('A_ok', t.BOOL)
-        good, bad = eng.fork(st, ok)
         from .builtins import havoc_object
+        if o.model == 'adv':
+            ok, n, ec = fresh('A_ok', t.BOOL), fresh('A_val', t.INT), fresh('A_exc', t.INT)
+        else:
+            base = o.offset if o.model == 'offsets' and o.offset is not None else t.ZERO
+            a = (sc.ident, o.buf, o.len, o.pos, base, H, D, c)
+            for fn, srt in (('A_ok', t.BOOL), ('A_val', t.INT), ('A_exc', t.INT)):
+                prelude.declare_fun(fn, [t.INT, t.ARR, t.INT, t.INT, t.INT, 'Heap', 'Dom', t.INT], srt)
+            ok, n, ec = t.app('A_ok', t.BOOL, *a), t.app('A_val', t.INT, *a), t.app('A_exc', t.INT, *a)
+        good, bad = eng.fork(st, ok)
         if good is not None:
-            n = fresh('A_val', t.INT)
             good.assume(t.ge(n, t.ZERO))
             if o.model == 'adv':
                 self.havoc_adv(eng, good, stream)
@@ -477,7 +484,6 @@ class ConstructInterface(Interface):
                 havoc_object(eng, good, stream, 'asz', writes=False)
             out.append((good, VInt(n)))
         if bad is not None:
-            ec = fresh('A_exc', t.INT)
             self.construct_error(eng, bad, ec)
             if o.model == 'adv':
                 self.havoc_adv_failed(eng, bad, stream)
